@@ -414,6 +414,37 @@ def run_case(out, m, sname, lab, kind, dim, an, bn, blab, ub, vb, mode, tier, nk
                     bad('functional-scalar', f"Functional.assemble = {J!r}, elemental sum = {Je.sum()!r}, explicit sum = {Jr!r}")
             except Exception as e:
                 bad('linear-exception', repr(e))
+        # user parameters named like the basis defaults (h, x) override them identically in all three form types
+        if n_c == 0:
+            try:
+                hv = 0.37
+                xo = DiscreteField(np.asarray(ub.global_coordinates()) * 0 + 2.0)
+
+                def ig(*a, cu=cu, cv=cv, fu=fu, fv=fv):
+                    return fu(a[cu]) * fv(a[ncu + cv]) * a[-1].h * a[-1].x[0]
+                Ao = BilinearForm(ig).assemble(ub, vb, h=hv, x=xo).toarray()
+                Ro = np.zeros((Nv, Nu))
+                for j in range(ub.Nbfun):
+                    for i in range(vb.Nbfun):
+                        loc = (fu(ub.basis[j][cu]) * fv(vb.basis[i][cv]) * hv * 2.0 * dx).sum(axis=1)
+                        np.add.at(Ro, (vd[i], ud[j]), loc)
+                if np.abs(Ao - Ro).max() > 1e-11 * (1 + np.abs(Ro).max()):
+                    bad('override-default-bilinear', "user parameters h= / x= do not replace the basis defaults in BilinearForm")
+
+                def lg(*a, cv=cv, fv=fv):
+                    return fv(a[cv]) * a[-1].h * a[-1].x[0]
+                bo = LinearForm(lg).assemble(vb, h=hv, x=xo)
+                Rb = np.zeros(Nv)
+                for i in range(vb.Nbfun):
+                    np.add.at(Rb, vd[i], (fv(vb.basis[i][cv]) * hv * 2.0 * vb.dx).sum(axis=1))
+                if np.abs(bo - Rb).max() > 1e-11 * (1 + np.abs(Rb).max()):
+                    bad('override-default-linear', "user parameters h= / x= do not replace the basis defaults in LinearForm")
+                Jo = Functional(lambda w: w.h * w.x[0] + 0 * w['g']).assemble(vb, h=hv, x=xo, g=DiscreteField(garr))
+                if abs(Jo - hv * 2.0 * vb.dx.sum()) > 1e-11 * (1 + abs(Jo)):
+                    bad('override-default-functional', f"user parameters h= / x= do not replace the basis defaults in Functional "
+                        f"({Jo!r} vs {hv * 2.0 * vb.dx.sum()!r})")
+            except Exception as e:
+                bad('override-default-exception', repr(e))
         # trilinear on tiny meshes (first integrand only)
         if n_c == 0 and nel <= 3 and ub.Nbfun * vb.Nbfun * ub.Nbfun <= 400 and ncu == 1 and ncv == 1:
             def tri(u, v, q, w, fu=fu, fv=fv):
